@@ -351,7 +351,8 @@ impl<R: Host> ResolverFut<R> {
             Poll::Pending => r is Pending,
             Poll::Ready(Ok(Err(_))) => r matches Poll::Ready(Err(e)) && e is Resolver,
             Poll::Ready(Err(_)) => r matches Poll::Ready(Err(e)) && e is Io,
-            Poll::Ready(Ok(Ok(_))) => r matches Poll::Ready(Ok(_)) || (r matches Poll::Ready(Err(e)) && e is NoRecords),
+            Poll::Ready(Ok(Ok(it))) => if it@.len() == 0 { r matches Poll::Ready(Err(e)) && e is NoRecords }
+                                       else { r matches Poll::Ready(Ok(c)) && c.addr.list() == it@ },
         }),
 //@end
 }
